@@ -71,7 +71,8 @@
 //!      listener and every event kind 0..5 the number of invocations, then the same counts of the
 //!      REFERENCE run (same script, well-behaved listeners)
 //! panic mask (modes 2 and 4): bit i = listener i panics with a String payload; bit i + 4 = listener i
-//!   panics with a payload whose Drop panics (std::panic::panic_any(Bomb))
+//!   panics with a payload whose Drop panics (std::panic::panic_any(Bomb)); bit i + 8 = with a payload whose
+//!   Drop panics with such a payload again, three levels deep (panic_any(Nested(3)))
 //!
 //! Every layer sits directly under a `tower::util::MapErr` that folds the layer's error type back
 //! into the common error `E` (pass-through variant: depth + 1; anything the layer made up itself:
@@ -163,9 +164,13 @@ impl Lst {
         self.counts.len()
     }
     /// how listener i misbehaves: 0 not at all, 1 panics with a String payload (bit i of the mask),
-    /// 2 panics with a payload whose Drop panics (bit i + 4 of the mask: std::panic::panic_any(Bomb))
+    /// 2 panics with a payload whose Drop panics (bit i + 4 of the mask: std::panic::panic_any(Bomb)),
+    /// 3 panics with a payload whose Drop panics with a payload whose Drop panics ..., 3 levels deep
+    /// (bit i + 8: panic_any(Nested(3)))
     fn style(&self, i: usize) -> u8 {
-        if (self.mask >> (i + 4)) & 1 == 1 {
+        if (self.mask >> (i + 8)) & 1 == 1 {
+            3
+        } else if (self.mask >> (i + 4)) & 1 == 1 {
             2
         } else if (self.mask >> i) & 1 == 1 {
             1
@@ -206,18 +211,29 @@ impl Drop for Bomb {
     }
 }
 
+/// a panic payload whose destructor panics with a payload of the same kind, n levels deep
+struct Nested(u32);
+impl Drop for Nested {
+    fn drop(&mut self) {
+        if self.0 > 0 && !std::thread::panicking() {
+            std::panic::panic_any(Nested(self.0 - 1));
+        }
+    }
+}
+
 fn misbehave(style: u8, i: usize) {
     match style {
         1 => panic!("listener {} panics", i),
         2 => std::panic::panic_any(Bomb),
+        3 => std::panic::panic_any(Nested(3)),
         _ => {}
     }
 }
 
-/// the panic mask of a script: bits 0..nl (String payload) and 4..4+nl (Bomb payload)
+/// the panic mask of a script: bits 0..nl (String payload), 4..4+nl (Bomb payload), 8..8+nl (nested)
 fn clamp_mask(mask: i128, nl: usize) -> i128 {
     let low = (1i128 << nl) - 1;
-    mask & (low | (low << 4))
+    mask & (low | (low << 4) | (low << 8))
 }
 
 type Hook = Box<dyn Fn() + Send>;
